@@ -1,4 +1,4 @@
-import Toodee.Spec.Inv
+import Toodee.Proofs.Index
 /-
   C03 — A view is exactly the requested window of its parent.
 
@@ -22,13 +22,46 @@ theorem C03_view_valid (m : Mode) (v : VW) (n : Nat) (h : v.Inv n) (s e : Nat ×
     ∃ v', v.view m s e = .ok v' ∧ v.viewChecked m s e = .ok v' ∧ v'.Inv n ∧
       (v'.numCols, v'.numRows) = viewSize s e ∧
       ∀ c r, c < v'.numCols → r < v'.numRows → v'.pos c r = v.pos (s.1 + c) (s.2 + r) := by
-  sorry
+  unfold viewSize
+  obtain ⟨hstride, hzero, hlen, hinside, hword, hsw⟩ := h
+  by_cases h0 : e.1 - s.1 = 0 ∨ e.2 - s.2 = 0
+  · have hd := calcViewDims_empty m s e v.numCols v.numRows v.stride hs he hstride h0
+    refine ⟨⟨⟨v.data.off + 0, 0⟩, 0, 0, v.stride⟩, ?_, ?_, ?_, ?_, ?_⟩
+    · simp [VW.view, hd, Win.getRange]
+    · simp [VW.viewChecked, hd, Win.indexRange]
+    · exact ⟨Nat.zero_le _, Iff.rfl, by simp, by simp; omega, hword, hsw⟩
+    · simp [h0]
+    · intro c r hc; simp at hc
+  · have hs' : s.1 < e.1 ∧ s.2 < e.2 := by omega
+    have hR : ¬ v.numRows = 0 := by omega
+    rw [if_neg hR] at hlen
+    have hle : (e.2 - 1) * v.stride ≤ (v.numRows - 1) * v.stride :=
+      Nat.mul_le_mul_right _ (by omega)
+    have hend := view_end_eq v.stride s.1 e.1 hs.1 hs'.2
+    have hd := calcViewDims_nonempty m s e v.numCols v.numRows v.stride hs' he hstride (by omega)
+    have hg1 : s.2 * v.stride + s.1 ≤
+        s.2 * v.stride + s.1 + ((e.2 - s.2 - 1) * v.stride + (e.1 - s.1)) := Nat.le_add_right _ _
+    have hg2 : s.2 * v.stride + s.1 + ((e.2 - s.2 - 1) * v.stride + (e.1 - s.1)) ≤ v.data.len := by
+      omega
+    refine ⟨⟨⟨v.data.off + (s.2 * v.stride + s.1), (e.2 - s.2 - 1) * v.stride + (e.1 - s.1)⟩,
+      e.1 - s.1, e.2 - s.2, v.stride⟩, ?_, ?_, ?_, ?_, ?_⟩
+    · simp [VW.view, hd, Win.getRange_ok _ hg1 hg2]
+    · simp [VW.viewChecked, hd, Win.indexRange_ok _ hg1 hg2]
+    · refine ⟨by simp only []; omega, by simp only []; omega, ?_, by simp only []; omega, hword, hsw⟩
+      have : ¬ e.2 - s.2 = 0 := by omega
+      simp only [this, if_false]
+    · simp [h0]
+    · intro c r _ _
+      simp only [VW.pos, Nat.add_mul]
+      omega
 
 theorem C03_view_invalid (m : Mode) (v : VW) (n : Nat) (h : v.Inv n) (s e : Nat × Nat)
     (hw : s.1 < WORD ∧ s.2 < WORD ∧ e.1 < WORD ∧ e.2 < WORD)
     (hbad : ¬ ((s.1 ≤ e.1 ∧ s.2 ≤ e.2) ∧ (e.1 ≤ v.numCols ∧ e.2 ≤ v.numRows))) :
     v.view m s e = .error .panic ∧ v.viewChecked m s e = .error .panic := by
-  sorry
+  have _ := hw; have _ := h
+  have hd := calcViewDims_panic m s e v.numCols v.numRows v.stride hbad
+  simp [VW.view, VW.viewChecked, hd]
 
 /-- `TooDee::view` / `view_mut` (`from_toodee`) on an owned array -/
 theorem C03_from_toodee_valid (m : Mode) (t : TD α) (h : t.Inv) (s e : Nat × Nat)
@@ -36,12 +69,18 @@ theorem C03_from_toodee_valid (m : Mode) (t : TD α) (h : t.Inv) (s e : Nat × N
     ∃ v', VW.fromTooDee m s e t = .ok v' ∧ v'.Inv t.data.length ∧
       (v'.numCols, v'.numRows) = viewSize s e ∧
       ∀ c r, c < v'.numCols → r < v'.numRows → v'.pos c r = t.pos (s.1 + c) (s.2 + r) := by
-  sorry
+  obtain ⟨hinv, hpos⟩ := TD.asView_inv t h
+  obtain ⟨v', h1, _, h3, h4, h5⟩ := C03_view_valid m t.asView t.data.length hinv s e hs he
+  refine ⟨v', by rw [VW.fromTooDee_eq_view]; exact h1, h3, h4, ?_⟩
+  intro c r hc hr
+  rw [h5 c r hc hr, hpos]
 
 theorem C03_from_toodee_invalid (m : Mode) (t : TD α) (h : t.Inv) (s e : Nat × Nat)
     (hw : s.1 < WORD ∧ s.2 < WORD ∧ e.1 < WORD ∧ e.2 < WORD)
     (hbad : ¬ ((s.1 ≤ e.1 ∧ s.2 ≤ e.2) ∧ (e.1 ≤ t.numCols ∧ e.2 ≤ t.numRows))) :
     VW.fromTooDee m s e t = .error .panic := by
-  sorry
+  have _ := hw; have _ := h
+  have hd := calcViewDims_panic m s e t.numCols t.numRows t.numCols hbad
+  simp [VW.fromTooDee, hd]
 
 end Toodee
